@@ -18,7 +18,7 @@ func init() {
 		Name:  "EXEC",
 		Doc:   "who may run user code; the planning run is zeroed; run-once memoization",
 		Run:   runExec,
-		Floor: map[string]int{"EXEC-X1": 5, "EXEC-X2": 4, "EXEC-X3": 1, "EXEC-X4": 1, "EXEC-X5": 2, "EXEC-X6": 1, "ONCE-O1": 2, "ONCE-O2": 2, "ONCE-O4": 3},
+		Floor: map[string]int{"EXEC-X1": 5, "EXEC-X2": 4, "EXEC-X3": 1, "EXEC-X4": 1, "EXEC-X5": 2, "EXEC-X6": 1, "EXEC-X7": 1, "EXEC-X8": 3, "ONCE-O1": 2, "ONCE-O2": 2, "ONCE-O4": 3, "ONCE-O5": 1},
 	})
 }
 
@@ -354,6 +354,62 @@ func runExec(c *Ctx) {
 			ternary(badW == "", fmt.Sprintf("%d receiver write(s), all direct fields", nw), badW))
 	}
 
+	// ---- X7: the Result handed to the output mapper is the one the executor just returned for that vertex
+	// (run-once memoization lives inside the executor; there is no per-call cache of converter results)
+	if om := c.P.MustRole("outputMapper"); om != nil {
+		for _, ci := range core.Calls(res) {
+			if ci.Common().StaticCallee() != om {
+				continue
+			}
+			okk := false
+			for _, a := range ci.Common().Args {
+				if core.NamedOf(a.Type()) != "Result" {
+					continue
+				}
+				srcs := core.Sources(a)
+				okk = len(srcs) > 0
+				for _, sv := range srcs {
+					cl, isC := sv.(*ssa.Call)
+					if !isC || cl.Common().StaticCallee() != exec {
+						okk = false
+					}
+				}
+			}
+			c.R.Add("EXEC-X7", "resolver|outputs-from-this-execution", "resolver", p.InstrPos(ci), okk,
+				"the outputs mapped onto the graph after a converter step are exactly the Result the executor returned for that step (no per-call result cache)", fmt.Sprintf("ok=%v", okk))
+		}
+	}
+	// ---- X8: who may call: the executor is called only by Call and the resolver; the resolver only by Call, the
+	// planner and itself; Call only by the conversion helper and generated function bodies (closures handed to MakeFunc)
+	{
+		callRole := p.MustRole("Call")
+		cm := p.MustRole("convertMulti")
+		allowedExec := map[*ssa.Function]bool{callRole: true, res: true}
+		allowedRes := map[*ssa.Function]bool{callRole: true, res: true, planner: true}
+		check := func(target *ssa.Function, allowed map[*ssa.Function]bool, what string, viaClosure bool) {
+			bad := ""
+			n := 0
+			for _, site := range p.Callers(target) {
+				n++
+				caller := site.Parent()
+				if allowed[caller] {
+					continue
+				}
+				if viaClosure && caller.Parent() != nil && c.escapingClosure(caller) {
+					continue // body of a generated function (runs when the generated function is called, not now)
+				}
+				bad = core.FuncName(caller) + " at " + p.InstrPos(site)
+			}
+			c.R.Add("EXEC-X8", "who-may-call|"+what, what, p.Pos(target.Pos()), bad == "",
+				"only the designated callers invoke "+what, ternary(bad == "", fmt.Sprintf("%d call site(s), all designated", n), "also called by "+bad))
+		}
+		check(exec, allowedExec, "the executor", false)
+		check(res, allowedRes, "the resolver", false)
+		if callRole != nil {
+			check(callRole, map[*ssa.Function]bool{cm: true}, "Call", true)
+		}
+	}
+
 	// ---- X5: resolver flag plumbing
 	flagOf := func(ci ssa.CallInstruction) string {
 		for _, a := range ci.Common().Args {
@@ -574,6 +630,25 @@ func runOnce(c *Ctx, exec *ssa.Function, fnField, onceField, memoField string) {
 		})
 	}
 	c.R.Add("ONCE-O4", "flag-and-memo|single-writer", "(package)", "-", stray == "", "the run-once flag is set only at construction and the memo only by the executor", ternary(stray == "", "no other writer", "also written by "+stray))
+	// O5: the memo is consulted nowhere but in the executor (a shortcut elsewhere would bypass resolution)
+	reader := ""
+	for _, f := range p.ArgFuncs() {
+		if f == exec {
+			continue
+		}
+		core.Instrs(f, func(in ssa.Instruction) {
+			if fa, ok := in.(*ssa.FieldAddr); ok {
+				if fr, ok := core.AsFieldAddr(fa); ok && fr.Owner == "Func" && fr.Field == memoField {
+					for _, ref := range *fa.Referrers() {
+						if _, isLoad := ref.(*ssa.UnOp); isLoad {
+							reader = core.FuncName(f) + " at " + p.InstrPos(in)
+						}
+					}
+				}
+			}
+		})
+	}
+	c.R.Add("ONCE-O5", "memo|read-only-by-executor", "(package)", "-", reader == "", "the run-once memo is read only by the executor", ternary(reader == "", "no other reader", "also read by "+reader))
 	_ = strings.Join
 }
 
